@@ -79,7 +79,13 @@ class Gen:
         for _ in range(int(r.integers(0, 3))):
             a = int(r.integers(0, n))
             b = int(r.integers(a, n + 1))
-            x[a:b] += r.normal(scale=4.0, size=p)
+            shift = r.normal(scale=4.0, size=p)
+            if p > 1 and r.random() < 0.5:
+                # a sparse change: only some of the columns move
+                keep = r.random(p) < 0.5
+                keep[int(r.integers(p))] = True
+                shift = shift * keep
+            x[a:b] += shift
         if r.random() < 0.25 and n > 3:
             a = int(r.integers(0, n - 2))
             b = int(r.integers(a + 2, n + 1))
@@ -882,10 +888,13 @@ def extra_checks(seed, tier, args):
     ptasks = pair_tasks()
     pidx = list(range(len(ptasks)))
     res2 = runner.run_batch("C10", seed, tier, pidx, workers=args.workers, per_run_guard=300, chunk=8, fn="run_pairs")
+    stasks = shape_tasks()
+    res3 = runner.run_batch("C10", seed, tier, list(range(len(stasks))), workers=args.workers, per_run_guard=300, chunk=8, fn="run_shapes")
     pts = sum(r.get("stats", {}).get("probes", {}).get("sweep_points", 0) for r in res if "stats" in r)
     extra = {"crash_site_sweep": {"tasks_run": len(idxs), "tasks_total": len(tasks), "points": int(pts), "what": "per (detector x scorer x operation x shared/unshared) and (scorer x fit/evaluate): an interrupt at the first (thorough: also last and one random) dynamic hit of every distinct skchange source line the call executes, and for the stub cost a failure at every k-th stub call; each followed by calls on the interrupted client, the sharing client and the scorer, compared with fresh twins"}}
     extra["configuration_pair_sweep"] = {"cases": len(pidx), "complete": True, "what": "for every detector x two scorers x data width x hyper-parameter (own and scorer parameter) x ordered value pair (v1, v2) involving the first menu value: A(v1) and B(v2) used one after the other on the same data, then A.set_params(v2) / B.set_params(v1) and refit; every output judged against constructor-, clone- and set_params-built twins in-process and a twin in a pristine process"}
-    return res + res2, extra
+    extra["data_shape_sweep"] = {"cases": len(stasks), "complete": True, "what": "for every detector (but the univariate anomaliser) x three scorers x six (n, p) -> (n', p') sequences x two change magnitudes: fit and use on the first shape, refit and use on the second, use on the first again, fit_predict / fit_transform back and forth; data carry a sparse (one-column) collective change and a point outlier; every output judged against constructor- and clone-built twins and a pristine-process twin"}
+    return res + res2 + res3, extra
 
 
 # --------------------------------------------------------------------------------------
@@ -1040,3 +1049,81 @@ def shrink_world(trace, still_fails):
         tr = cand
         changed = True
     return tr if changed else None
+
+
+# --------------------------------------------------------------------------------------
+# data-shape sweep: one object fitted on data of one width / length, used, refitted on
+# another width / length, used again (and back).  Finds state that is assigned in one
+# branch only (p = 1 vs p > 1, short vs long) or sized by the first data seen.
+# --------------------------------------------------------------------------------------
+SHAPE_SEQS = [((24, 1), (24, 3)), ((24, 3), (24, 1)), ((24, 2), (40, 2)), ((40, 2), (24, 2)), ((24, 1), (30, 2)), ((30, 3), (20, 2))]
+
+
+def shape_tasks():
+    tasks = []
+    for kind, (pname, params, scorers) in SWEEP_DETECTORS.items():
+        if kind == "StatThresholdAnomaliser":
+            continue
+        for sc in scorers[:3]:
+            for seq in SHAPE_SEQS:
+                for mag in (2.5, 5.0):
+                    tasks.append({"det": kind, "scorer": sc, "shapes": seq, "mag": mag})
+    return tasks
+
+
+def run_shapes(seed, idx, tier, pristine=None):
+    from histsim.c10 import Sim
+
+    tasks = shape_tasks()
+    task = tasks[idx % len(tasks)]
+    rng = core.make_rng(seed, "C10", 3 * 10**6 + idx)
+    kind = task["det"]
+    pname, params, _ = SWEEP_DETECTORS[kind]
+
+    def mk(did, n, p, fam):
+        x = np.round(rng.normal(size=(n, p)), 2)
+        a = int(rng.integers(3, n // 2))
+        # a sparse collective change (one column) and a point outlier
+        x[a : a + 5, int(rng.integers(p))] += task["mag"]
+        x[int(rng.integers(n)), int(rng.integers(p))] += 2 * task["mag"]
+        return {"id": did, "family": fam, "container": "df", "dtype": "float64", "index": {"kind": "range", "start": 0}, "columns": [f"v{j}" for j in range(p)], "values": values_to_json(x)}
+
+    (n1, p1), (n2, p2) = task["shapes"]
+    sp = dict(params)
+    sp[pname] = json_copy(SWEEP_SCORERS[task["scorer"]])
+    if kind == "MVCAPA":
+        sp["collective_penalty"] = ["combined", "intermediate", "sparse"][idx % 3]
+        sp["ignore_point_anomalies"] = True
+    trace = {
+        "property": "C10",
+        "seed": int(seed),
+        "run": int(idx),
+        "tier": "shapes",
+        "config": {"routes": ["clone"], "pristine": True, "shapes": task},
+        "datasets": [mk(0, n1, p1, 0), mk(1, n1, p1, 0), mk(2, n2, p2, 1), mk(3, n2, p2, 1)],
+        "objects": [{"name": "d0", "spec": {"__cls__": kind, "params": sp}}],
+        "steps": [
+            {"op": "fit", "c": 0, "d": 0},
+            {"op": "predict", "c": 0, "d": 1},
+            {"op": "transform_scores", "c": 0, "d": 0},
+            {"op": "fit", "c": 0, "d": 2},
+            {"op": "predict", "c": 0, "d": 2},
+            {"op": "transform_scores", "c": 0, "d": 3},
+            {"op": "transform", "c": 0, "d": 3},
+            {"op": "predict", "c": 0, "d": 1},
+            {"op": "fit_predict", "c": 0, "d": 1},
+            {"op": "transform_scores", "c": 0, "d": 0},
+            {"op": "fit_transform", "c": 0, "d": 3},
+            {"op": "transform_scores", "c": 0, "d": 2},
+        ],
+    }
+    sim = Sim(trace, pristine)
+    for st in trace["steps"]:
+        sim.execute(st)
+        if sim.violations:
+            break
+    sim.finish()
+    r = _result(sim, trace)
+    r["signature"] = core.digest(["shapes", task])
+    r["stats"].setdefault("probes", {})["shape_cases"] = 1
+    return r
